@@ -208,6 +208,26 @@ type ClientOpts struct {
 	NewNick           func(string) string
 }
 
+// Knobs varies the configuration fields a world's oracle does not depend on
+// (and the world has left unset), so that correctness never silently leans on
+// one configuration: the dial/keep-alive timeout, the split length, a SASL
+// client and wanted capabilities that are never negotiated.
+func (g G) Knobs(o ClientOpts) ClientOpts {
+	if o.Timeout == 0 {
+		o.Timeout = []time.Duration{0, 0, 50 * time.Millisecond, time.Second, 15 * time.Second, 10 * time.Minute}[g.Intn(6)]
+	}
+	if o.SplitLen == 0 {
+		o.SplitLen = []int{0, 0, 0, 50, 200, 510, 2000}[g.Intn(7)]
+	}
+	if o.Sasl == nil && g.Pct(20) {
+		o.Sasl = sasl.NewPlainClient("", "knob", "knob")
+	}
+	if o.Caps == nil && g.Pct(20) {
+		o.Caps = []string{"multi-prefix", "sasl"}[:g.Range(1, 2)]
+	}
+	return o
+}
+
 func NewClient(o ClientOpts) *client.Conn {
 	if o.Nick == "" {
 		o.Nick = "me"
